@@ -125,6 +125,16 @@ Example C09_nonvacuous :
      = RErr KeyError.
 Proof. vm_compute. repeat split. Qed.
 
+(** The Prop hypothesis [W_rep] of theorems C09_step_refines / C09_wf_observable is satisfiable by
+    a non-trivial world (three paragraphs sharing one heap, after re-orderings, a copy, a sort and
+    a re-parse): by theorem 1. *)
+Example C09_wf_nonvacuous :
+  let A := [65]%N in let b := [98]%N in let Cc := [67; 99]%N in
+  let s := SDict [(A, [49]%N); (b, [50]%N); (Cc, [120]%N)] in
+  let xs := [OFirst 0 [66]%N; OCopy 0; OSort 1; OReparse 1; ODel 2 [97]%N; OAfter 0 A Cc] in
+  exists Cs, W_rep ascii_lower (run ascii_lower (snd (start_world ascii_lower s)) xs) Cs.
+Proof. cbv zeta. apply C09_dll_wf_preserved; vm_compute; reflexivity. Qed.
+
 (** Non-vacuity of the simple domain: a parsed start and a history with re-parses. *)
 Example C09_nonvacuous_simple :
   let A := [65]%N in let a := [97]%N in let b := [98]%N in
